@@ -531,6 +531,7 @@ def run(ctx: Ctx, rep: Report, tier: str) -> None:  # noqa: C901
     views_leave_judgement_to_reader(ctx, rep)
     codec_skips_nothing(ctx, rep)
     rejected_leaves_unchanged(ctx, rep)
+    encoder_walks_sorted_input(ctx, rep)
     operands_are_a_set(ctx, rep)
     empty_expression_writes_back(ctx, rep)
     rep.rule("R08.5")
@@ -618,6 +619,50 @@ def rejected_leaves_unchanged(ctx: Ctx, rep: Report, rid: str = "R08.13", target
                     rep.ok(f"{q}: {snippet(st.ast, 40)}", f"no error leaves the setter after this store without self.{attr} being put back" if after else "nothing can raise after this store", where=where(f, st.ast))
                 else:
                     rep.violation(q, f"{snippet(st.ast, 40)} ... {snippet(bad.ast, 40)}", f"self.{attr} is stored before the rest of the new text is validated, and an error raised afterwards leaves the setter without the old value being put back: the refused assignment leaves a hybrid - " + (what or "the new operator over the old operands, ports and range string (`lt 80` with the port set of `eq 80`), which the next write-back turns into another meaning"), where(f, st.ast), inp=inp or "p = Port('eq 80', protocol='tcp'); p.line = 'lt 1 2'  # ValueError; p.line == 'lt www', p.sport == '80'")
+
+
+def encoder_walks_sorted_input(ctx: Ctx, rep: Report, rid: str = "R08.16") -> None:
+    """The range-string encoder detects runs by comparing neighbours, so the list it walks must be in ascending order: the
+    list the neighbour loop iterates over is the result of `sorted(...)` (directly, or of a sort in place) - a `list(set(x))`
+    "de-duplication" leaves set-iteration order, and `{22, 80}` is encoded as `80-22`."""
+    rep.rule(rid)
+    f = ctx.prog.find_func("helpers.ports_to_string")
+    rep.instance()
+    if f is None:
+        rep.note(f"{rid} helpers.ports_to_string not present - not judged")
+        return
+    loops = [x for x in own_nodes(f.node) if isinstance(x, ast.For)]
+    if not loops:
+        rep.note(f"{rid} no loop in helpers.ports_to_string - not judged")
+        return
+    lp = loops[0]
+    it = lp.iter
+    while isinstance(it, ast.Call) and src(it.func) in ("enumerate", "zip", "list", "iter") and it.args:
+        it = it.args[0]
+    ok = False
+    what = snippet(it, 30)
+    if isinstance(it, ast.Call) and src(it.func) == "sorted":
+        ok = True
+    elif isinstance(it, ast.Name):
+        # the last binding of the name before the loop (or an in-place .sort())
+        last = None
+        for x in own_nodes(f.node):
+            if getattr(x, "lineno", 0) >= lp.lineno:
+                continue
+            if isinstance(x, (ast.Assign, ast.AnnAssign)) and x.value is not None and any(isinstance(t, ast.Name) and t.id == it.id for t in (x.targets if isinstance(x, ast.Assign) else [x.target])):
+                if last is None or x.lineno > last.lineno:
+                    last = x
+            if isinstance(x, ast.Expr) and isinstance(x.value, ast.Call) and isinstance(x.value.func, ast.Attribute) and x.value.func.attr == "sort" and src(x.value.func.value) == it.id:
+                if last is None or x.lineno > last.lineno:
+                    last = x
+        if last is not None:
+            v = last.value
+            what = snippet(last, 50)
+            ok = (isinstance(v, ast.Call) and src(v.func) == "sorted") or (isinstance(last, ast.Expr))
+    if ok:
+        rep.ok("helpers.ports_to_string", f"the neighbour loop walks sorted input ({what})", where=where(f, lp))
+    else:
+        rep.violation("helpers.ports_to_string", f"for ... in {snippet(lp.iter, 30)}  <-  {what}", "the run detection compares each port with its successor, but the list it walks is not sorted: a descending step is read as a run (`{22, 80}` -> '80-22'), the range string decodes to another or an empty set", where(f, lp), inp="Port('eq 22 80', protocol='tcp').sport")
 
 
 def operands_are_a_set(ctx: Ctx, rep: Report, rid: str = "R08.14") -> None:
